@@ -116,7 +116,9 @@ StepBad(e, SA, RA, In, Ord, Cl) ==
              \/ (e.op = "poll_send" /\ res = "ok" /\ own \in oIn /\ ~Stored(Ord, own))
              \/ (e.op = "try_send" /\ res = "ok" /\ ~Stored(Ord, v))
       \* ---- C11: close semantics, handle lifecycle
-      c11 == \/ (e.op = "close" /\ res # (IF oClosed THEN "already" ELSE "newly"))
+      c11 == \* (threaded runs) the drop of the last handle of a side has returned: the channel is closed by now
+             \/ (e.op = "drop_returned" /\ ~oClosed)
+             \/ (e.op = "close" /\ res # (IF oClosed THEN "already" ELSE "newly"))
              \/ (e.op = "poll_send" /\ oClosed /\ res = "pending")
              \/ (e.op = "poll_send" /\ oClosed /\ res = "ok" /\ own \in oIn /\ ~Stored(oOrder, own))
              \/ (e.op = "poll_send" /\ res = "err" /\ ~oClosed)
@@ -168,6 +170,9 @@ ObsStep(e) ==
       out == CASE IsRecv(e) /\ res = "some" -> {v}
                [] e.op = "poll_send" /\ res = "err" -> {own}
                [] e.op = "cancel_send" /\ res = "some" -> {own}
+               \* (threaded runs do not observe destructors: a clear without a `dropped` field is taken to discard
+               \* what the specification says it discards)
+               [] ClearsNow(e) /\ "dropped" \notin DOMAIN e -> SeqSet(Prefix(oOrder, Cap)) \cap oIn
                [] OTHER -> SeqSet(Dropped(e))
       inn == CASE e.op = "create_send" -> {v}
                [] e.op = "try_send" /\ res = "ok" -> {v}
